@@ -186,7 +186,7 @@ def replay(beh, flavour, clauses=None):
                 # text-contains checks of the documented degradation
                 for e in got:
                     if e["p"] == "synexc":
-                        need = [rt.DETAIL_TEXT] + ([rt.REASON_IN_DETAILS] if c.get("form") == "detr" else [])
+                        need = [] if c.get("form") == "det0" else [rt.DETAIL_TEXT] + ([rt.REASON_IN_DETAILS] if c.get("form") == "detr" else [])
                         if not all(x in e["text"] for x in need):
                             out.append(dict(clause="c08_degrade_text", step=step, node=i, expected=need, observed=e["text"]))
                     elif e["p"] == "synreason":
@@ -255,9 +255,9 @@ def signature(beh, flavour, d):
     if d.get("postout") and cl == "c17_observed" and any(st.kinds[a] == "TFR" for a in st.path(i)):
         return "c17:TFR-buffers-tags-after-outcome-as-run-level"
     if cl == "raised":
-        test = "holder" if flavour in ("ph", "eh") else "testcase"
-        return "raised:%s:%s:in=%s:%s%s" % (c["op"] + ("/" + c["kind"] if c["op"] == "add" else ""), d["exc"], d["where"], test,
-                                            ":after-startless-stopTest" if d.get("startless") else "")
+        # the argument form decides (which outcome it was and what kind of test object do not)
+        return "raised:%s:%s:in=%s%s" % (c["op"] + ("/" + c["form"] if c["op"] == "add" else ""), d["exc"], d["where"],
+                                         ":after-startless-stopTest" if d.get("startless") else "")
     if isinstance(obs, str) and obs.startswith("raises"):
         return "%s:at=%s:%s%s" % (cl, IMPL.get(kind, kind), obs, ":after-startless-stopTest" if d.get("startless") else "")
     how = "preff" if beh["preff"] else "setff" if any(h["c"]["op"] == "setff" for h in hist[: d["step"] + 1]) else "noff"
@@ -567,8 +567,8 @@ SIMT = dict(simulate=dict(num=1500, depth=40), workers=8)
 # (config, kinds of test objects per behaviour | NOREPLAY | name of the invariant/property TLC must report violated, TLC options)
 PLANS = {
     "C08": {
-        "quick": [("rs_mcA3.cfg", NOREPLAY, {}), ("rs_expA.cfg", all3, {}), ("rs_expB.cfg", tc_ph, {}), ("rs_sim.cfg", tc_ph, SIMQ)],
-        "thorough": [("rs_mcA3.cfg", NOREPLAY, {}), ("rs_mcA3all.cfg", NOREPLAY, {}), ("rs_expA.cfg", every3, {}), ("rs_expB.cfg", tc_ph, {}),
+        "quick": [("rs_mcA3.cfg", NOREPLAY, {}), ("rs_expA.cfg", all3, {}), ("rs_expA0.cfg", tc_ph, {}), ("rs_expB.cfg", tc_ph, {}), ("rs_sim.cfg", tc_ph, SIMQ)],
+        "thorough": [("rs_mcA3.cfg", NOREPLAY, {}), ("rs_mcA3all.cfg", NOREPLAY, {}), ("rs_expA.cfg", every3, {}), ("rs_expA0.cfg", every3, {}), ("rs_expB3.cfg", tc_ph, {}),
                      ("rs_expB2.cfg", tc_ph, {}), ("rs_sim.cfg", tc_ph, SIMT)],
     },
     "C04": {
@@ -576,7 +576,7 @@ PLANS = {
                   ("rs_expC3.cfg", tc_only, {}), ("rs_expP.cfg", tc_only, {}), ("rs_simFF.cfg", tc_only, SIMQ)],
         "thorough": [("rs_codedFF.cfg", "FailFastStops", {}), ("rs_mcC.cfg", NOREPLAY, {}), ("rs_expC1.cfg", tc_only, {}),
                      ("rs_expC2.cfg", tc_only, {}), ("rs_expC3.cfg", tc_only, {}), ("rs_expC4.cfg", tc_only, {}), ("rs_expP.cfg", tc_only, {}),
-                     ("rs_simFF.cfg", tc_only, SIMT), ("rs_sim.cfg", tc_only, SIMT)],
+                     ("rs_simFF.cfg", tc_only, SIMT), ("rs_sim13.cfg", tc_only, SIMT)],
     },
     "C17": {
         "quick": [("rs_codedTags.cfg", "TagsScoped", {}), ("rs_codedTFR.cfg", "TagsObserved", {}), ("rs_codedTFR2.cfg", "TagsObserved", {}),
